@@ -97,8 +97,12 @@ fn check_inner(sub: &str, g: &G, toks: &[char], l: &mut Local) -> CaseRes {
     let mut matched = None;
     for (i, r) in refs.iter().enumerate() {
         let res: Result<(), (String, String)> = (|| {
-            if is_clean_accept(&o) != r.accepted {
-                return Err(("C15/accept".to_string(), format!("parse accepts={} but the reference accepts={} (errors {:?}; reference prefix {:?})", is_clean_accept(&o), r.accepted, o.errs, r.prefix)));
+            if o.has_output != r.accepted {
+                return Err(("C15/accept".to_string(), format!("parse has_output={} but the reference accepts={} (errors {:?}; reference prefix {:?})", o.has_output, r.accepted, o.errs, r.prefix)));
+            }
+            if r.accepted && o.errs.len() != r.emitted.len() {
+                // validate emitters inside configured parsers: only the surviving path's emissions are reported
+                return Err(("C15/emitted".to_string(), format!("{} error(s) reported {:?} but the surviving path emits {}", o.errs.len(), o.errs, r.emitted.len())));
             }
             if r.accepted {
                 let rv = &r.prefix.as_ref().unwrap().0;
@@ -129,8 +133,8 @@ fn check_inner(sub: &str, g: &G, toks: &[char], l: &mut Local) -> CaseRes {
         let (sig, msg) = first.unwrap();
         return fail(case, &sig, msg);
     };
-    if is_clean_accept(&c) != is_clean_accept(&o) {
-        return fail(case, "C15/check", format!("check accepts={} but parse accepts={}", is_clean_accept(&c), is_clean_accept(&o)));
+    if c.has_output != o.has_output || c.errs != o.errs {
+        return fail(case, "C15/check", format!("check: has_output={} errors {:?}; parse: has_output={} errors {:?}", c.has_output, c.errs, o.has_output, o.errs));
     }
     // metamorphic: static equivalents under constant providers
     let mut changed = 0;
@@ -143,11 +147,11 @@ fn check_inner(sub: &str, g: &G, toks: &[char], l: &mut Local) -> CaseRes {
         if os.panic.is_some() {
             return fail(case, "C15/panic", format!("the statically configured equivalent panicked: {:?}", os.panic));
         }
-        if is_clean_accept(&os) != is_clean_accept(&o) || (is_clean_accept(&o) && os.out != o.out) {
+        if os.has_output != o.has_output || (o.has_output && (os.out != o.out || os.errs != o.errs)) {
             return fail(
                 case,
                 "C15/static-equivalent",
-                format!("configured from context: accept={} output {:?}; statically configured equivalent {}: accept={} output {:?}", is_clean_accept(&o), o.out, render(&gs), is_clean_accept(&os), os.out),
+                format!("configured from context: has_output={} output {:?} errors {:?}; statically configured equivalent {}: has_output={} output {:?} errors {:?}", o.has_output, o.out, o.errs, render(&gs), os.has_output, os.out, os.errs),
             );
         }
     }
@@ -228,6 +232,8 @@ pub fn decode(tape: &[u32]) -> (G, Vec<char>) {
         let mut c = GenCfg::c02();
         c.ctx = true;
         c.rec = true;
+        // validate emitters in a third of the cases (configured parsers backtrack like their static equivalents)
+        c.validate = t.chance(1, 3);
         let mut gg = GGen::new(&mut t, c);
         gg.alpha = match gg.t.pick(3) {
             0 => vec!['1', '2', 'a'],
